@@ -128,13 +128,95 @@ def evaluate(c, res, classes=False, aba=False):
     return divs
 
 
+# ---- DiagDeps.tla: the last word about a document also depends on the documents it depends on
+DNAMES = {"u1": "main.journal", "u2": "decl.journal"}
+
+
+def dep_text(u, v):
+    if u == "u2":
+        return "account a:b\naccount wallet:w%d\n; version %d\n" % (v % 2, v)
+    return "include decl.journal\n\n2024-01-01 x  ; version %d\n    wallet:w0  1\n    wallet:w1  1\n    a:b  -2\n" % v
+
+
+DMOD = {"MCDiagDeps": "---- MODULE MCDiagDeps ----\nEXTENDS DiagDeps\nMDep == {<<\"u1\", \"u2\">>}\n====\n"}
+
+
+def dcfg(maxch, mech, emit):
+    return ("CONSTANTS Docs = {\"u1\", \"u2\"} MaxChanges = %d Mech = \"%s\"\n Dep <- MDep\nSPECIFICATION Spec\nINVARIANTS ConvergedDeps%s\nCHECK_DEADLOCK FALSE\n"
+            % (maxch, mech, " Emit" if emit else ""))
+
+
+def dep_cases(run):
+    bad = run.tlc("MCDiagDeps", dcfg(2, "own-job-only", False), workers=2, allow_violation=True, collect_json=False, extra_modules=DMOD)
+    if bad.ok or "Invariant ConvergedDeps is violated" not in bad.stdout:
+        vf.die_tooling("DiagDeps.tla: analysing only the changed document no longer violates ConvergedDeps — the model is vacuous")
+    seen, out = set(), []
+    for k in ((1, 2, 3) if run.tier != "thorough" else (1, 2, 3, 4, 5)):
+        for c in run.tlc("MCDiagDeps", dcfg(k, "reanalyse-dependents", True), workers=4, extra_modules=DMOD).json:
+            key = json.dumps(c["h"])
+            if key not in seen:
+                seen.add(key)
+                out.append(c)
+    return out
+
+
+def dep_harness(c, ws):
+    files = {DNAMES[u]: dep_text(u, 1) for u in DNAMES}
+    ops = [{"op": "open", "file": DNAMES["u2"], "text": files[DNAMES["u2"]]}, {"op": "open", "file": DNAMES["u1"], "text": files[DNAMES["u1"]]}]
+    for st in c["h"]:
+        # every change is saved as well: what an analysis reads from the file and what the editor holds agree throughout
+        t = dep_text(st["uri"], st["ver"])
+        ops += [{"op": "change", "file": DNAMES[st["uri"]], "text": t}, {"op": "write", "file": DNAMES[st["uri"]], "text": t}, {"op": "save", "file": DNAMES[st["uri"]]}]
+    ops += [{"op": "pub", "file": DNAMES["u1"]}, {"op": "pub", "file": DNAMES["u2"]}]
+    fin = {DNAMES[u]: dep_text(u, c["final"][u]) for u in DNAMES}
+    fresh = [{"op": "open", "file": DNAMES["u2"], "text": fin[DNAMES["u2"]]}, {"op": "open", "file": DNAMES["u1"], "text": fin[DNAMES["u1"]]},
+             {"op": "pub", "file": DNAMES["u1"]}, {"op": "pub", "file": DNAMES["u2"]}]
+    return ({"files": files, "workspace": ws, "ops": ops}, {"files": fin, "workspace": ws, "ops": fresh})
+
+
+def dep_evaluate(c, lived, fresh):
+    for r in (lived, fresh):
+        if "panic" in r:
+            return [("panic", "server panicked: " + r["panic"][:300])]
+    out = []
+    for k, u in ((-2, "u1"), (-1, "u2")):
+        a, b = lived["steps"][k].get("diags") or [], fresh["steps"][k].get("diags") or []
+        ka = sorted((d["sl"], d["code"], d["msg"]) for d in a)
+        kb = sorted((d["sl"], d["code"], d["msg"]) for d in b)
+        if ka != kb:
+            out.append(("dependent-not-reanalysed", "after %s the client's last diagnostics for %s are %s; a fresh server given the final texts (versions %s) publishes %s" % (
+                [(s["uri"], s["ver"]) for s in c["h"]], DNAMES[u], ka, c["final"], kb)))
+    return out
+
+
+def dependents(run, only=None):
+    cases = dep_cases(run) if only is None else [only[0]]
+    combos = [(c, ws) for c in cases for ws in ((False, True) if only is None else [only[1]])]
+    hcs = []
+    for i, (c, ws) in enumerate(combos):
+        a, b = dep_harness(c, ws)
+        hcs += [dict(a, id="l%d" % i), dict(b, id="f%d" % i)]
+    res = run.harness("script", hcs, timeout=2400)
+    for i, (c, ws) in enumerate(combos):
+        run.count(vf.digest(["deps", c["h"], ws]), any(s["uri"] == "u2" for s in c["h"]))
+        for sig, what in dep_evaluate(c, res[2 * i], res[2 * i + 1]):
+            run.diverge(sig, what + "  [workspace root %s]" % ws, {"family": "dependents", "spec_case": c, "workspace": ws}, None,
+                        trigger="dependents" if sig == "dependent-not-reanalysed" else None)
+    return len(combos)
+
+
 def main(args):
     run = vf.Run("C13", args.tier, args.seed, level="model_checking")
     if args.replay:
         with open(args.replay) as f:
             rp = json.load(f)
+        if rp["case"]["family"] == "dependents":
+            dependents(run, (rp["case"]["spec_case"], rp["case"]["workspace"]))
+            run.rule = "replay of one history of DiagDeps.tla"
+            return run.finish(confirm=lambda d: confirm(run, d))
         cases = [(rp["case"]["family"], rp["case"]["spec_case"], rp["case"]["workspace"], rp["case"].get("classes", False))]
     else:
+        run.extra["dependency_histories"] = dependents(run)
         model_check(run)
         # unbounded: the TLAPS proof that the repaired mechanism satisfies Converged for any number of documents, changes and jobs
         run.extra["tlaps_obligations_proved_DiagProof"] = run.tlaps("DiagProof")
@@ -173,6 +255,10 @@ def main(args):
 
 def confirm(run, d):
     c = d["case"]
+    if c.get("family") == "dependents":
+        a, b = dep_harness(c["spec_case"], c["workspace"])
+        res = run.harness("script", [dict(a, id="l"), dict(b, id="f")])
+        return any(sig == d["sig"] for sig, _ in dep_evaluate(c["spec_case"], res[0], res[1]))
     cl = c.get("classes", False)
     res = run.harness("diag", [{"id": "0", "schedule": c["spec_case"]["schedule"], "workspace": c["workspace"], "classes": cl is True, "aba": cl == "aba"}])[0]
     return any(sig == d["sig"] for sig, _ in evaluate(c["spec_case"], res, cl is True, cl == "aba"))
